@@ -26,6 +26,10 @@ from harness import common as C
 PROP = "C12"
 TARGETS = ["IbicusModel.Props.C12"]
 GEN = ["WriteSites"]
+# tier A for the provenance programs (builder c12A): the function tables of all eight debiaser classes regenerated from the AST
+# (translator/extract_purity.py -> Gen/Purity.lean), accepted by the checker of Model/PurityProg.lean (Lemmas/GenPurity.lean)
+TARGETS += ["IbicusModel.Lemmas.GenPurity"]
+GEN += ["Purity"]
 
 CALLER_NAMES = ["obs", "cm_hist", "cm_future", "time_obs", "time_cm_hist", "time_cm_future"]
 SIX = CALLER_NAMES
@@ -1139,6 +1143,299 @@ def qdm_sticky_probe(res):
     return res.extra["qdm_cdf_threshold_after_assignment"]["agrees_with_model"]
 
 
+# ------------------------------------------------------------------ window-settings sweep on series that span several windows
+# Quantifiers of C12 covered here (the protocol above fixes one odd (length, step) per configuration and two-year series):
+#   * "all debiasers and SETTINGS": window lengths / step lengths drawn over even and odd values, step = length, step = 1,
+#     whole-year windows — in particular values that the window helpers normalise at construction (even -> +1), for the
+#     window over days of the year (every RunningWindowDebiaser, ISIMIP) and the window over years of cm_future (CDFt, QDM);
+#   * "for all INPUTS": cm_future series of 3..30 years (starting on any month) so that the year window takes several steps
+#     and the first / last window is a partial one; date and datetime64 time arrays; contiguous and strided views; f32/f64;
+#   * "all SEQUENCES of earlier apply calls on the same instance": first call, immediate repeat, repeats after unrelated
+#     apply_location / apply calls on series of another span, the same through apply on a grid, a fresh instance.
+# Oracle = the statement itself: every repeat is bit-identical to the first call (after re-seeding iff a random step is on),
+# the caller's arrays keep their bytes (read-only on the first call), nothing raises on a repeat that did not raise first.
+SWEEP_FAMILIES = {
+    # name: (class, variable, year window available, weight)
+    "cdft_tas": ("CDFt", "tas", True, 4), "cdft_pr_ssr": ("CDFt", "pr", True, 3),
+    "qdm_tas": ("QuantileDeltaMapping", "tas", True, 4), "qdm_pr_censored": ("QuantileDeltaMapping", "pr", True, 1),
+    "ls_tas": ("LinearScaling", "tas", False, 1), "dc_pr": ("DeltaChange", "pr", False, 1),
+    "qm_tas": ("QuantileMapping", "tas", False, 1), "ecdfm_tas": ("ECDFM", "tas", False, 1),
+    "sdm_pr": ("ScaledDistributionMapping", "pr", False, 1), "isimip_tas": ("ISIMIP", "tas", False, 1),
+    "isimip_hurs": ("ISIMIP", "hurs", False, 1),
+}
+
+
+def sweep_factory(spec):
+    """the debiaser of a sweep case, built from the JSON-able settings of the spec"""
+    import scipy.stats
+
+    import ibicus.debias as D
+
+    cls_name, var, _, _ = SWEEP_FAMILIES[spec["family"]]
+    kw = dict(spec["settings"])
+    if cls_name == "ECDFM":
+        kw["distribution"] = scipy.stats.norm
+    with warnings.catch_warnings():
+        warnings.simplefilter("ignore")
+        return getattr(D, cls_name).from_variable(var, **kw)
+
+
+def _normalised(v):
+    return v + 1 if v % 2 == 0 else v
+
+
+SWEEP_MAX_WINDOWS = {"qdm_pr_censored": 10, "isimip_tas": 20, "isimip_hurs": 20}  # (day windows x year steps) per call: wall-time budget
+
+
+def sweep_spec(rng, family, tier):
+    """one case: settings + the shape of the series + the call sequence (everything JSON-able; data from data_seed)"""
+    cls_name, var, has_years, _ = SWEEP_FAMILIES[family]
+    big = 30 if tier != "quick" else 24
+    while True:
+        st = {}
+        # ---- window over days of the year
+        rwm = rng.random() < (0.5 if has_years else 0.85)
+        if cls_name == "ISIMIP" and not rwm and rng.random() < 0.5:
+            rwm = True
+        st["running_window_mode"] = rwm
+        S = 366
+        if rwm:
+            while True:
+                L = rng.choice([10, 30, 31, 60, 61, 90, 91, 120, 182, 365, 366, rng.randint(7, 200)])
+                S = rng.choice([L, L, max(1, L // 2), 10, 30, 31, 46, rng.randint(7, 120)])
+                if cls_name == "ISIMIP" and L < 15:
+                    continue  # too few values per window for the parametric fits: not the subject here
+                if S <= L and _normalised(S) <= _normalised(L):  # the debiaser compares the raw values, the helper the normalised ones
+                    break
+            st["running_window_length"], st["running_window_step_length"] = L, S
+        # ---- window over the years of cm_future
+        ys = yrm = 1
+        if has_years:
+            yrm = rng.random() < 0.85
+            st["running_window_mode_over_years_of_cm_future"] = yrm
+            if yrm:
+                while True:
+                    yl = rng.choice([1, 2, 3, 4, 5, 6, 8, 9, 10, 17, 18, rng.randint(1, 20)])
+                    ys = rng.choice([1, 2, 2, 4, 4, 6, 10, yl, max(1, yl // 2), rng.randint(1, 12)])
+                    if ys <= yl and _normalised(ys) <= _normalised(yl):
+                        break
+                st["running_window_over_years_of_cm_future_length"], st["running_window_over_years_of_cm_future_step_length"] = yl, ys
+        # ---- the series: cm_future spans several steps of the year window (or 2..4 years when there is none)
+        if has_years and yrm:
+            ny = rng.randint(min(big, ys + 2), min(big, 3 * ys + 4))
+        else:
+            ny = rng.randint(2, 4)
+        windows = (366 // _normalised(S) + 1 if rwm else 1) * (ny // _normalised(ys) + 1 if (has_years and yrm) else 1)
+        if windows <= SWEEP_MAX_WINDOWS.get(family, 60):
+            break
+    m0 = rng.choice([1, 1, 1, 4, 7, 10])
+    spec = {
+        "family": family, "settings": st, "hist_days": rng.choice([730, 731, 1095]),
+        "fut_start": [rng.randint(2000, 2080), m0, 1], "fut_days": 365 * ny + rng.choice([0, 1, 17, 200]),
+        "alt_fut_start": [rng.randint(2000, 2080), rng.choice([1, 6]), 1], "alt_fut_days": 365 * rng.randint(2, max(3, ny // 2)) + rng.choice([0, 45]),
+        "times_kind": rng.choice(["date", "date", "datetime64"]), "layout": rng.choice(LAYOUTS_1D),
+        "dtype": rng.choice(["float64", "float64", "float32"]), "data_seed": rng.randint(0, 2**31 - 1), "np_seed": rng.randint(0, 2**31 - 2),
+        "sequence": ["repeat"] + [rng.choice(["other_loc", "other_apply", "same_apply", "repeat"]) for _ in range(rng.randint(1, 3))],
+        "verif_seed": C.seed(), "tier": tier,
+    }
+    return spec
+
+
+def sweep_series(spec):
+    """(arrays, dates) of the case and of the unrelated calls — a pure function of the spec"""
+    _, var, _, _ = SWEEP_FAMILIES[spec["family"]]
+    nprs = np.random.RandomState(spec["data_seed"])
+    kind, dt = spec["times_kind"], np.dtype(spec["dtype"])
+    dO = dates_from(datetime.date(1990, 1, 1), spec["hist_days"], kind)
+    dH = dates_from(datetime.date(1990, 1, 1), spec["hist_days"] + 1, kind)
+    out = []
+    for start, days in ((spec["fut_start"], spec["fut_days"]), (spec["alt_fut_start"], spec["alt_fut_days"])):
+        dF = dates_from(datetime.date(*start), days, kind)
+        arrs = [gen_data(var, nprs, d_, sh).astype(dt) for d_, sh in ((dO, 0.0), (dH, 1.0), (dF, 3.0))]
+        # a slow drift over the years of cm_future: which years form a window is visible in the output
+        arrs[2] = (arrs[2] * (1 + np.linspace(0.0, 0.02 if var == "tas" else 0.5, days))).astype(dt)
+        out.append((arrs, [dO, dH, dF]))
+    return out
+
+
+def helper_state(deb):
+    """the fields of the attrs helper objects an instance carries (window objects): vars() snapshots hold the objects
+    themselves, so a change INSIDE a helper is only visible here"""
+    import attrs
+
+    st = {}
+    for k, v in vars(deb).items():
+        if attrs.has(type(v)):
+            st[k] = {a.name: repr(getattr(v, a.name, None)) for a in attrs.fields(type(v))}
+    return st
+
+
+def _same_out(a, b):
+    return isinstance(a, np.ndarray) and isinstance(b, np.ndarray) and a.shape == b.shape and a.dtype == b.dtype and a.tobytes() == b.tobytes()
+
+
+def _ndiff(a, b):
+    if not (isinstance(a, np.ndarray) and isinstance(b, np.ndarray) and a.shape == b.shape):
+        return -1
+    return int((~((a == b) | (np.isnan(a) & np.isnan(b)))).sum())
+
+
+def _grid(arrs, other):
+    """(t, 1, 2) grids: both locations of obs / cm_hist / cm_future carry the SAME series"""
+    _ = other
+    return [np.stack([a, a], axis=1).reshape(a.size, 1, 2) for a in arrs]
+
+
+def run_sweep_case(spec, res, problems, mismatches):
+    """execute the call sequence of one sweep case on the real code; findings carry the whole spec (= the replay input)"""
+    name = "sweep/" + spec["family"]
+    (arrs, dts), (arrs_alt, dts_alt) = sweep_series(spec)
+    seed = spec["np_seed"]
+    case = {"kind": "window-sweep", "config": name, "spec": spec, "entry": "apply_location",
+            "n": [int(a.size) for a in arrs], "years_cm_future": [int(str(dts[2][0])[:4]), int(str(dts[2][-1])[:4])]}
+    try:
+        deb = sweep_factory(spec)
+    except Exception as ex:  # noqa: BLE001
+        res.notes.append(f"{name}: construction with {spec['settings']} raised {type(ex).__name__} (case skipped)")
+        return False
+    guards = rng_guards(deb)
+    deterministic = not guards
+    reseed = None if deterministic else seed
+    case["rng_guards"] = guards
+    how = "without re-seeding (the configuration has no random step)" if deterministic else "under the same np.random.seed"
+    trail = ["apply_location(series) [first call, read-only inputs]"]
+
+    def bad(what, desc, **kw):
+        problems.append((f"{name} {spec['settings']}: {desc}", {**case, "what": what, "call_sequence": list(trail), **kw}))
+
+    s0, d0 = vars_snapshot(deb)
+    h0 = helper_state(deb)
+    inp = Inputs(arrs, dts, spec["layout"], "apply_location")
+    inp.readonly(True)
+    try:
+        try:
+            out1 = call(deb, inp, "apply_location", seed)
+        except Exception as ex:  # noqa: BLE001
+            if is_store_error(ex):
+                bad("read-only input written", f"a store into a caller buffer was attempted ({type(ex).__name__}: {str(ex)[:80]})")
+                return True
+            if "read-only" not in str(ex):
+                ch = inp.changed()
+                if ch:
+                    bad("input modified", f"caller arrays modified by apply_location (which then raised {type(ex).__name__}): {ch}", changed=ch)
+                res.notes.append(f"{name}: {spec['settings']} raises {type(ex).__name__}: {str(ex)[:80]} (configuration skipped)")
+                return False
+            inp.readonly(False)  # a compiled routine refuses to read a read-only buffer: writable inputs + byte comparison
+            deb = sweep_factory(spec)
+            out1 = call(deb, inp, "apply_location", seed)
+        ch = inp.changed()
+        if ch:
+            bad("input modified", f"caller arrays modified by apply_location: {ch}", changed=ch)
+        s1, d1 = vars_snapshot(deb)
+        why = same_vars(s0, s1) or same_vars(d0, d1)
+        if why:
+            bad("instance state changed", f"instance attributes changed by apply_location: {why}", detail=why)
+        h1 = helper_state(deb)
+        if h1 != h0:
+            diff = {k: (h0.get(k), h1.get(k)) for k in set(h0) | set(h1) if h0.get(k) != h1.get(k)}
+            mismatches.append({"op": "helper-state", "case": {"family": spec["family"], "settings": spec["settings"]},
+                               "impl": f"apply_location changed fields of a helper object: {diff}",
+                               "model": "Model.Instance.applyLocation leaves every derived attribute (Props.C12.applyLocation_state)"})
+
+        def again(label):
+            i2 = Inputs(arrs, dts, "C", "apply_location")
+            trail.append(f"apply_location(series) [{label}]")
+            try:
+                o = call(deb, i2, "apply_location", reseed)
+            except Exception as ex:  # noqa: BLE001
+                if is_store_error(ex):
+                    raise
+                bad("not repeatable", f"the {label} raised {type(ex).__name__}: {str(ex)[:80]} although the first call returned", which=label)
+                return
+            if not _same_out(o, out1):
+                bad("not repeatable", f"output of the {label} differs from the first call ({_ndiff(o, out1)} of {out1.size} values) {how}", which=label)
+            ch2 = i2.changed()
+            if ch2:
+                bad("input modified", f"caller arrays modified by apply_location (writable inputs, {label}): {ch2}", changed=ch2)
+
+        n_same_apply = 0
+        for k, op in enumerate(spec["sequence"]):
+            if op == "repeat":
+                again("repeated call" if k == 0 else f"repeated call (step {k + 1} of the sequence)")
+                continue
+            try:
+                if op == "other_loc":
+                    trail.append("apply_location(another series of another span) [unrelated call]")
+                    call(deb, Inputs(arrs_alt, dts_alt, "C", "apply_location"), "apply_location", seed + 1 + k)
+                elif op == "other_apply":
+                    trail.append("apply(grid 1x2 of another series of another span) [unrelated call]")
+                    call(deb, Inputs(_grid(arrs_alt, None), dts_alt, "C", "apply"), "apply", seed + 1 + k)
+                elif op == "same_apply":
+                    # the same series at both locations of a grid, through apply on the used instance and on a fresh one
+                    trail.append("apply(grid 1x2, the series at both locations) [used instance, then again, then a fresh instance]")
+                    g = [call(d_, Inputs(_grid(arrs, None), dts, "C", "apply"), "apply", seed) for d_ in (deb, deb, sweep_factory(spec))]
+                    n_same_apply += 1
+                    if not _same_out(g[0], g[1]):
+                        bad("not repeatable", f"apply on a grid repeated on the same instance differs ({_ndiff(g[0], g[1])} values) under the same np.random.seed", which="apply repeated")
+                    if not _same_out(g[0], g[2]):
+                        bad("depends on the instance's history", f"apply on a grid: the used instance and a fresh instance differ ({_ndiff(g[0], g[2])} values) under the same np.random.seed",
+                            which="apply used vs fresh")
+                    if deterministic and not _same_out(np.ascontiguousarray(g[2][:, 0, 0]), np.ascontiguousarray(g[2][:, 0, 1])):
+                        bad("not repeatable", f"apply on a grid whose two locations carry the same series gives different results at the two locations "
+                            f"({_ndiff(g[2][:, 0, 0], g[2][:, 0, 1])} values); the configuration has no random step", which="same arguments at two locations")
+            except Exception as ex:  # noqa: BLE001
+                if is_store_error(ex):
+                    raise
+                res.notes.append(f"{name}: {op} raised {type(ex).__name__}: {str(ex)[:60]}")
+                continue
+            again(f"call after {op} (step {k + 1} of the sequence)")
+        # ---- a fresh instance with the same settings
+        trail.append("apply_location(series) [fresh instance]")
+        try:
+            o4 = call(sweep_factory(spec), Inputs(arrs, dts, "C", "apply_location"), "apply_location", seed if not deterministic else seed + 11)
+            if not _same_out(o4, out1):
+                bad("not repeatable", f"output of a fresh instance differs from the first call of the used instance ({_ndiff(o4, out1)} of {out1.size} values) {how}", which="fresh instance")
+        except Exception as ex:  # noqa: BLE001
+            if is_store_error(ex):
+                raise
+            bad("not repeatable", f"a fresh instance raised {type(ex).__name__}: {str(ex)[:80]} on the arguments the used instance accepted", which="fresh instance")
+        s2, d2 = vars_snapshot(deb)
+        why = same_vars(s1, s2)
+        if why:
+            bad("settings changed", f"settings drift over the call sequence: {why}", detail=why)
+    except Exception as ex:  # noqa: BLE001
+        if is_store_error(ex):
+            bad("read-only input written", f"a store into a caller buffer was attempted ({type(ex).__name__}: {str(ex)[:80]})")
+            return True
+        raise
+    st = spec["settings"]
+    res.count(("sweep", spec["family"], st.get("running_window_mode"), st.get("running_window_length", 1) % 2, st.get("running_window_step_length", 1) % 2,
+               st.get("running_window_mode_over_years_of_cm_future"), st.get("running_window_over_years_of_cm_future_length", 1) % 2,
+               st.get("running_window_over_years_of_cm_future_step_length", 1) % 2, spec["times_kind"], spec["layout"], spec["dtype"]), True,
+              sample={"family": spec["family"], "settings": st, "fut_days": spec["fut_days"], "sequence": spec["sequence"], "grid_applies": n_same_apply})
+    return True
+
+
+def window_sweep_cases(rng, tier, res, problems, mismatches, boost):
+    fams = [f for f, v in SWEEP_FAMILIES.items() for _ in range(v[3])]
+    n = (22 if tier == "quick" else 120) * (3 if boost else 1)
+    order = list(SWEEP_FAMILIES) + [rng.choice(fams) for _ in range(max(0, n - len(SWEEP_FAMILIES)))]
+    done = even = 0
+    for fam in order[:n]:
+        spec = sweep_spec(rng, fam, tier)
+        try:
+            ran = run_sweep_case(spec, res, problems, mismatches)
+        except Exception as ex:  # noqa: BLE001
+            ran = False
+            res.notes.append(f"sweep/{fam}: {spec['settings']} raised {type(ex).__name__}: {str(ex)[:100]}")
+        done += int(bool(ran))
+        st = spec["settings"]
+        even += int(bool(ran) and any(isinstance(v, int) and not isinstance(v, bool) and v % 2 == 0 for v in st.values()))
+    res.extra["window_sweep_cases"], res.extra["window_sweep_cases_with_an_even_setting"], res.extra["window_sweep_planned"] = done, even, len(order[:n])
+    if done < (len(order[:n]) * 2) // 3:
+        mismatches.append({"op": "coverage", "case": {}, "impl": f"only {done} of {len(order[:n])} window-sweep cases ran", "model": "every family runs on its generated series"})
+
+
 # ------------------------------------------------------------------ the check
 MASKED_ALWAYS = ("ls_tas", "dc_pr", "ls_pr_window", "isimip_prsnratio_impute")
 NAN_OK = ("ls_", "dc_", "isimip_prsnratio")
@@ -1221,6 +1518,16 @@ def run(tier, res, force_search=False):
                                      {"config": name, "entry": entry, "layout": layout, "what": "read-only input written"}))
                 else:
                     res.notes.append(f"{name}/{entry}/{layout}: protocol raised {type(ex).__name__}: {str(ex)[:100]}")
+
+    # ---- window settings (even / odd / normalised) x multi-window series x call sequences; its own stream: the streams above do not shift
+    import time as _time
+
+    t_sweep = _time.time()
+    try:
+        window_sweep_cases(random.Random(C.seed() * 15485863 + 1205), tier, res, problems, mismatches, boost)
+    except Exception as ex:  # noqa: BLE001
+        res.notes.append(f"window sweep raised {type(ex).__name__}: {str(ex)[:100]}")
+    res.extra["window_sweep_wall_s"] = round(_time.time() - t_sweep, 1)
 
     # ---- a run in which (nearly) nothing was exercised must not pass
     skipped = sum(1 for n_ in res.notes if "configuration skipped" in n_)
@@ -1356,6 +1663,16 @@ def replay(data):
         print("REPRODUCED:" if bad else "replay:", digs)
         print("replay:", "violation reproduced" if bad else "not reproduced")
         return 1 if bad else 0
+    if fi.get("kind") == "window-sweep":
+        # the spec holds the settings, the shape of the series, the seeds and the call sequence
+        res = C.Result(PROP, fi["spec"].get("tier", "quick"))
+        problems, mism = [], []
+        run_sweep_case(fi["spec"], res, problems, mism)
+        for desc, case in problems[:5]:
+            print("REPRODUCED:", desc[:300])
+            print("  call sequence:", case.get("call_sequence"))
+        print("replay:", "violation reproduced" if problems else "not reproduced")
+        return 1 if problems else 0
     os.environ["VERIF_SEED"] = str(fi.get("verif_seed", 0))
     cfgs = configurations()
     name = fi["config"]
